@@ -1022,7 +1022,8 @@ func (s *Store) getRelatedEntitiesAtTime(from *RelatedFrom, limit int, mergePart
 			return RelatedEntitiesResult{}, err
 		}
 
-		relatedEntity, err := s.GetEntityWithInternalID(r.EntityID, from.Datasets, mergePartials)
+		// load the related entity as of the (pinned) query time, like the relation itself
+		relatedEntity, err := s.GetEntityAtPointInTimeWithInternalID(r.EntityID, from.At, from.Datasets, mergePartials)
 		if err != nil {
 			return RelatedEntitiesResult{}, err
 		}
